@@ -116,6 +116,7 @@ func redisStress(r *ev.Run, goroutines, actions int, targets []target, leak bool
 	keyAbsent := true
 	leakAt := int64(0)
 	done := make(chan struct{})
+	wdDone := make(chan struct{})
 	if leak {
 		tag, workload = "redis-leak", "redis-stress-leaked-lock"
 		extra = droppedTexts
@@ -146,6 +147,7 @@ func redisStress(r *ev.Run, goroutines, actions int, targets []target, leak bool
 		// the watchdog: ONLY after the leak (no handle can hold the lock then: the leaked key keeps everybody out) it moves the
 		// virtual clock past the TTL, after the others have been seen spinning (or 2 s of wall clock; not a verdict)
 		go func() {
+			defer close(wdDone)
 			select {
 			case <-fired:
 			case <-done:
@@ -208,6 +210,18 @@ func redisStress(r *ev.Run, goroutines, actions int, targets []target, leak bool
 	if !waitTimeout(&wg, 4*time.Minute) {
 		r.Inconclusive("redis free-running stress did not finish (watchdog): " + workload)
 		return
+	}
+	if leak {
+		// the leak may have hit the last lock operation of the run: the watchdog is then still waiting to see others spin
+		hmu.Lock()
+		wait := leaked
+		hmu.Unlock()
+		if wait {
+			select {
+			case <-wdDone:
+			case <-time.After(10 * time.Second):
+			}
+		}
 	}
 	srv.SetHook(nil)
 	r.Cases(goroutines * actions)
@@ -542,6 +556,12 @@ func (sw *schedWorld) runRedisScenario(r *ev.Run, sc *scenario, plan redisPlan, 
 	w.mu.Lock()
 	expired, advStuck, dropped, busy, stuck, overlap := w.advancedHeld, w.advancedStuck, w.dropped, w.busy, w.stuck, w.overlap
 	w.mu.Unlock()
+	if _, left := w.srv.Get(0, redisLockKey); left && dropped > 0 && !stuck {
+		// the dropped lock SET was (one of) the last lock operations: nobody was left to wait behind the leaked key. Every thread has
+		// returned, so nobody holds the lock: the TTL passes before the final reads (which go through the lock like every reader)
+		w.expire()
+		r.Count("redis_sched_clock_advances_after_the_run", 1)
+	}
 	prefix := redisPrefix
 	if expired > 0 {
 		prefix = redisExpired
